@@ -361,6 +361,8 @@ struct Rules {
     methods: Vec<(String, String)>,     // method name -> free fn
     after_call: Vec<(String, String)>,  // normalised callee path -> template ($1 = first arg)
     drop_attr: Vec<String>,
+    raw_ident: Vec<String>,
+    calls: Vec<(String, String)>,       // normalised callee path -> replacement path
     pub_super: bool,
     macro_call: Vec<(String, String)>,  // macro name -> fn name (args kept verbatim)
 }
@@ -509,9 +511,12 @@ impl<'a, 'ast> Visit<'ast> for FnScan<'a> {
                     let (x, y) = brange(a);
                     self.src[x..y].to_string()
                 });
-                let text = tmpl.replace("$1", a1.as_deref().unwrap_or(""));
+                let text = format!("{} {}", &self.src[start..end], tmpl.replace("$1", a1.as_deref().unwrap_or("")));
                 self.seq += 1;
-                self.edits.push(Edit { pos: end, end, text, rule: "R4:after-call".into(), kept: a1.into_iter().collect(), oline: 0, seq: self.seq });
+                let mut kept: Vec<String> = a1.into_iter().collect();
+                kept.push(self.src[start..end].to_string());
+                self.edits.push(Edit { pos: start, end, text, rule: "R4:after-call".into(), kept, oline: 0, seq: self.seq });
+                return;
             }
         }
         syn::visit::visit_stmt(self, s);
@@ -537,6 +542,24 @@ impl<'a, 'ast> Visit<'ast> for FnScan<'a> {
         let (bs, be) = brange(&*c.body);
         self.closures.push(ClosureInfo { body_start: bs, body_end: be, has_ret: !matches!(c.output, syn::ReturnType::Default) });
         syn::visit::visit_expr_closure(self, c);
+    }
+
+    fn visit_expr_call(&mut self, c: &'ast syn::ExprCall) {
+        // R3b: call through a dropped trait bound -> free function (arguments verbatim)
+        let mut f = String::new();
+        norm_tokens(quote::ToTokens::to_token_stream(&*c.func), &mut f);
+        let f = f.replace(' ', "");
+        if let Some((_, to)) = self.rules.calls.iter().find(|(p, _)| *p == f).cloned() {
+            let (s, e) = brange(&*c.func);
+            let orig = self.src[s..e].to_string();
+            self.push_edit(s, e, to, "R3:path-call-to-fn", vec![]);
+            let _ = orig;
+            for a in c.args.iter() {
+                self.visit_expr(a);
+            }
+            return;
+        }
+        syn::visit::visit_expr_call(self, c);
     }
 
     fn visit_expr_method_call(&mut self, m: &'ast syn::ExprMethodCall) {
@@ -644,6 +667,27 @@ fn emit_with_edits(em: &mut Emitter, sf: &SrcFile, start: usize, end: usize, edi
     }
     if cur < end {
         em.push(&sf.text[cur..end], &srcorigin, sf.line_of(cur));
+    }
+}
+
+/// R11: identifiers that are keywords of the Verus macro are written as raw identifiers (same identifier for rustc)
+fn raw_ident_edits(ts: TokenStream, rules: &Rules, edits: &mut Vec<Edit>, seq: &mut usize) {
+    if rules.raw_ident.is_empty() {
+        return;
+    }
+    for tt in ts {
+        match tt {
+            TokenTree::Group(g) => raw_ident_edits(g.stream(), rules, edits, seq),
+            TokenTree::Ident(i) => {
+                let name = i.to_string();
+                if rules.raw_ident.iter().any(|r| *r == name) {
+                    let r = i.span().byte_range();
+                    *seq += 1;
+                    edits.push(Edit { pos: r.start, end: r.end, text: format!("r#{}", name), rule: "R11:raw-ident".into(), kept: vec![name], oline: 0, seq: *seq });
+                }
+            }
+            _ => {}
+        }
     }
 }
 
@@ -767,6 +811,7 @@ fn main() {
                     "position" => rules.position = rest != "off",
                     "pub-restricted" => rules.pub_super = rest != "off",
                     "drop-attr" => rules.drop_attr = rest.split_whitespace().map(|s| s.to_string()).collect(),
+                    "raw-ident" => rules.raw_ident = rest.split_whitespace().map(|s| s.to_string()).collect(),
                     "method" => {
                         let mut p = rest.splitn(2, "=>");
                         let a = p.next().unwrap_or("").trim().to_string();
@@ -783,6 +828,15 @@ fn main() {
                         rules.macro_call.retain(|(n, _)| *n != a);
                         if !b.is_empty() {
                             rules.macro_call.push((a, b));
+                        }
+                    }
+                    "call" => {
+                        let mut p = rest.splitn(2, "=>");
+                        let a = p.next().unwrap_or("").trim().replace(' ', "");
+                        let b = p.next().unwrap_or("").trim().to_string();
+                        rules.calls.retain(|(n, _)| *n != a);
+                        if !b.is_empty() {
+                            rules.calls.push((a, b));
                         }
                     }
                     "after-call" => {
@@ -851,6 +905,7 @@ fn main() {
                     }
                     _ => {}
                 }
+                raw_ident_edits(quote::ToTokens::to_token_stream(it), &rules, &mut edits, &mut seq);
                 let l0 = em.line;
                 item_no += 1;
                 em.push(&format!("/*@I{}{{*/", item_no), "G", 0);
@@ -956,6 +1011,8 @@ fn main() {
                 let stmts = std::mem::take(&mut scan.stmts);
                 let closures = std::mem::take(&mut scan.closures);
                 let mut seq = 0usize;
+                raw_ident_edits(quote::ToTokens::to_token_stream(&block), &rules, &mut edits, &mut seq);
+                raw_ident_edits(quote::ToTokens::to_token_stream(&sig), &rules, &mut edits, &mut seq);
                 attr_edits(&attrs, &rules, &sf.text, &mut edits, &mut seq);
                 let in_trait_impl = match impl_idx {
                     Some(idx) => matches!(&sf.items[idx].1, syn::Item::Impl(im) if im.trait_.is_some()),
